@@ -70,6 +70,31 @@ def rich_blob(rng, depth, pool, tag=None):
     return e
 
 
+def xml_noise(rng, text, p=0.2):
+    """With probability p, sprinkle constructs the XML parser absorbs - comments,
+    processing instructions, CDATA sections, an XML declaration - over a document.
+    The parsed content is unchanged (the oracle parses the same text)."""
+    import re
+    if rng.random() >= p:
+        return text
+    def after_close(m):
+        r = rng.random()
+        if r < 0.06:
+            return m.group(0) + '<!-- note %d -->' % rng.randint(0, 99)
+        if r < 0.09:
+            return m.group(0) + '<?editor hint="%d"?>' % rng.randint(0, 9)
+        return m.group(0)
+    out = re.sub(r'</[A-Za-z_][\w.-]*>', after_close, text)
+    def cdata(m):
+        if rng.random() < 0.15 and ']]>' not in m.group(1):
+            return '><![CDATA[' + m.group(1) + ']]></'
+        return m.group(0)
+    out = re.sub(r'>([^<&]+)</', cdata, out)
+    if rng.random() < 0.3 and not out.lstrip().startswith('<?xml'):
+        out = '<?xml version="1.0" encoding="UTF-8"?>\n' + out
+    return out
+
+
 def rand_timing(rng, mode='any'):
     """Timing metadata block or None.  mode: any | timed | none"""
     if mode == 'none' or (mode == 'any' and rng.random() < 0.3):
@@ -209,8 +234,9 @@ def rand_ro(rng, n_stories=None, meta_layout=None, pool=None, timing='any', ids=
         env['ncs_id'] = rng.choice(pool)
     if rich and rng.random() < 0.2:
         env['extra'] = [rich_blob(rng, 1, pool, 'mosExtra')]
-    return B.ro_doc(ro_id, message_id, entries, slug=rng.choice(pool), ed_start=ed_start,
-                    meta_first=first, pretty=pretty, **env)
+    doc = B.ro_doc(ro_id, message_id, entries, slug=rng.choice(pool), ed_start=ed_start,
+                   meta_first=first, pretty=pretty, **env)
+    return xml_noise(rng, doc) if rich else doc
 
 
 # --------------------------------------------------------------------------
@@ -238,7 +264,7 @@ def new_story_for(rng, story_id, pool, timing='any', rich=True):
     return rand_story(rng, story_id, lambda: ic.new(), pool, timing=timing, rich=rich)
 
 
-def rand_message(rng, state, kind, message_id, ids, pool=None, ro_id='RO', timing='any',
+def _rand_message(rng, state, kind, message_id, ids, pool=None, ro_id='RO', timing='any',
                  shape_weights=(0.78, 0.1, 0.08, 0.04), selfref=0.06, rich=True, pretty=None,
                  blank_carried=0.0):
     """One message of `kind` aimed at the abstract state `state` (an Abs).
@@ -396,6 +422,11 @@ def rand_message(rng, state, kind, message_id, ids, pool=None, ro_id='RO', timin
     if kind in ('roReadyToAir', 'roDelete'):
         return B.msg_doc(kind, message_id, ro_id, **kw)
     raise ValueError(kind)
+
+
+def rand_message(rng, state, kind, message_id, ids, **kw):
+    doc = _rand_message(rng, state, kind, message_id, ids, **kw)
+    return xml_noise(rng, doc) if kw.get('rich', True) else doc
 
 
 # --------------------------------------------------------------------------
